@@ -271,10 +271,10 @@ package mvp6_3
 //@   ensures forall r risc.RegisterType :: !(exists i int :: old(comp.validSlot(u.wu.ctx.transactionRAT, r, i)) && old(comp.slot(u.wu.ctx.transactionRAT, r, i).sequenceID) < sequenceID) ==> comp.has(u.wu.ctx.committedRAT, r) == old(comp.has(u.wu.ctx.committedRAT, r)) && comp.newest(u.wu.ctx.committedRAT, r) == old(comp.newest(u.wu.ctx.committedRAT, r))
 //@   ensures forall r risc.RegisterType :: !comp.has(u.wu.ctx.transactionRAT, r)
 
-// (RATCommit's guarantees are stated outside its known-finding region F11:
-// tags written in program order per register)
+// (RATCommit commits the most recent entry of each register; that it is the
+// youngest by tag follows from the step contract of TransactionRATWrite)
 //@ func (*btbBranchUnit).notifyConditionalBranchNotTaken
-//@   requires u != nil && u.cu != nil && u.wu != nil &&  risc.wfCtxRAT(u.wu.ctx) && risc.monoTags(u.wu.ctx)
+//@   requires u != nil && u.cu != nil && u.wu != nil &&  risc.wfCtxRAT(u.wu.ctx)
 //@   ensures !u.cu.pendingConditionalBranch && risc.wfCtxRAT(u.wu.ctx)
 //@   ensures forall r risc.RegisterType :: old(comp.has(u.wu.ctx.transactionRAT, r)) ==> comp.has(u.wu.ctx.committedRAT, r) && comp.newest(u.wu.ctx.committedRAT, r) == old(comp.newest(u.wu.ctx.transactionRAT, r).value)
 //@   ensures forall r risc.RegisterType :: !old(comp.has(u.wu.ctx.transactionRAT, r)) ==> comp.has(u.wu.ctx.committedRAT, r) == old(comp.has(u.wu.ctx.committedRAT, r)) && comp.newest(u.wu.ctx.committedRAT, r) == old(comp.newest(u.wu.ctx.committedRAT, r))
